@@ -47,11 +47,11 @@ func normNumber(v rt.Value) (string, bool) {
 func buildPool(h *harness.Host, g *core.Tape) ([]poolKey, string) {
 	var p []poolKey
 	add := func(v rt.Value, norm, desc string) { p = append(p, poolKey{v, norm, desc}) }
-	for i := int64(-2); i <= 18; i++ {
+	for i := int64(-2); i <= 40; i++ {
 		n, _ := normNumber(rt.IntValue(i))
 		add(rt.IntValue(i), n, fmt.Sprint(i))
 	}
-	for _, i := range []int64{31, 32, 33, 64, 100, 1 << 31, 1<<53 - 1, 1 << 53, 1<<53 + 1, math.MinInt64, math.MaxInt64} {
+	for _, i := range []int64{63, 64, 65, 100, 128, 1 << 31, 1<<53 - 1, 1 << 53, 1<<53 + 1, math.MinInt64, math.MaxInt64} {
 		n, _ := normNumber(rt.IntValue(i))
 		add(rt.IntValue(i), n, fmt.Sprint(i))
 	}
@@ -139,14 +139,26 @@ func runTable(ctx *core.RunCtx) {
 	}
 	ntab := 1 + g.Choose(2)
 	tabs := make([]*rt.Table, ntab)
-	models := make([]map[string]int64, ntab)
+	models := make([]map[string]string, ntab)
 	travs := make([][]*traversal, ntab)
 	for i := range tabs {
 		tabs[i] = rt.NewTable()
-		models[i] = map[string]int64{}
+		models[i] = map[string]string{}
 		travs[i] = []*traversal{{}, {}}
 	}
 	counter := int64(1000)
+	newVal := func() rt.Value {
+		counter++
+		switch g.Weighted(10, 2, 1, 1) {
+		case 1:
+			return rt.BoolValue(false)
+		case 2:
+			return rt.BoolValue(true)
+		case 3:
+			return rt.StringValue(fmt.Sprintf("v%d", counter))
+		}
+		return rt.IntValue(counter)
+	}
 	nops := 10 + g.Choose(60)
 	if ctx.Tier == "thorough" {
 		nops = 20 + g.Choose(220)
@@ -159,16 +171,16 @@ func runTable(ctx *core.RunCtx) {
 		case 1: // ascending ints
 			if g.Chance(3, 4) {
 				seq++
-				return 3 + (seq % 17) // pool index of small ints 1..
+				return 3 + (seq % 38) // pool index of small ints 1..
 			}
 		case 2: // descending
 			if g.Chance(3, 4) {
 				seq++
-				return 20 - (seq % 18)
+				return 42 - (seq % 40)
 			}
 		case 3: // objects and strings
 			if g.Chance(3, 4) {
-				return 46 + g.Choose(len(pool)-46)
+				return 68 + g.Choose(len(pool)-68)
 			}
 		}
 		return g.Choose(len(pool))
@@ -198,10 +210,15 @@ func runTable(ctx *core.RunCtx) {
 				}
 				continue
 			}
-			if n, isInt := got.TryInt(); !isInt || n != want {
-				fail("C03.R1", "get-wrong-value", "after %s: t%d[%s] = %s, expected %d (most recent assignment to an equal key)", op, ti, k.desc, harness.Canon(got), want)
+			if harness.Canon(got) != want {
+				fail("C03.R1", "get-wrong-value", "after %s: t%d[%s] = %s, expected %s (most recent assignment to an equal key)", op, ti, k.desc, harness.Canon(got), want)
 				return false
 			}
+		}
+		// R3 structural invariants of the private representation
+		if err := t.VerifCheckInvariants(); err != nil {
+			fail("C03.R3", "invariant", "after %s: t%d: %v", op, ti, err)
+			return false
 		}
 		// R2 border
 		n := t.Len()
@@ -223,7 +240,7 @@ func runTable(ctx *core.RunCtx) {
 		ti := g.Choose(ntab)
 		t := tabs[ti]
 		m := models[ti]
-		w := []int{8, 4, 3, 3, 2, 3, 2, 2}
+		w := []int{8, 4, 3, 3, 2, 3, 2, 2, 3}
 		switch g.Weighted(w...) {
 		case 0, 1: // set (case 1: under a quota that may kill mid-operation)
 			ki := pickKey()
@@ -235,11 +252,10 @@ func runTable(ctx *core.RunCtx) {
 				continue
 			}
 			var v rt.Value
-			counter++
 			if clear {
 				v = rt.NilValue
 			} else {
-				v = rt.IntValue(counter)
+				v = newVal()
 			}
 			limited := g.Chance(1, 4)
 			op := fmt.Sprintf("t%d[%s] = %s", ti, k.desc, harness.Canon(v))
@@ -271,8 +287,8 @@ func runTable(ctx *core.RunCtx) {
 					ctx.Count("fault.kill landing inside a table assignment", 1)
 					// the in-flight assignment either applied or not
 					got := t.Get(k.v)
-					if n, ok := got.TryInt(); ok && !clear && n == counter {
-						m[k.norm] = counter
+					if !clear && !got.IsNil() && harness.Canon(got) == harness.Canon(v) && m[k.norm] != harness.Canon(v) {
+						m[k.norm] = harness.Canon(v)
 						noteChange(ti, k.norm, true)
 					} else if got.IsNil() && clear {
 						delete(m, k.norm)
@@ -299,23 +315,23 @@ func runTable(ctx *core.RunCtx) {
 				delete(m, k.norm)
 				noteChange(ti, k.norm, false)
 			} else {
-				m[k.norm] = counter
+				m[k.norm] = harness.Canon(v)
 				noteChange(ti, k.norm, true)
 			}
 			verify(ti, op)
 		case 2: // reset
 			k := pool[pickKey()]
 			_, present := m[k.norm]
-			counter++
-			op := fmt.Sprintf("Reset t%d[%s] = %d", ti, k.desc, counter)
+			rv := newVal()
+			op := fmt.Sprintf("Reset t%d[%s] = %s", ti, k.desc, harness.Canon(rv))
 			hist = append(hist, op)
-			was := t.Reset(k.v, rt.IntValue(counter))
+			was := t.Reset(k.v, rv)
 			if was != present {
 				fail("C03.R1", "reset-wasset", "%s returned %v but the key is %s", op, was, map[bool]string{true: "present", false: "absent"}[present])
 				return
 			}
 			if present {
-				m[k.norm] = counter
+				m[k.norm] = harness.Canon(rv)
 			}
 			verify(ti, op)
 		case 3: // start / step a traversal
@@ -406,8 +422,8 @@ func runTable(ctx *core.RunCtx) {
 				return
 			}
 			want, present := m[k.norm]
-			if present && (calls != 0 || got.Type() != rt.IntType || got.AsInt() != want) {
-				fail("C03.R6", "index-consulted-for-present-key", "%s: __index called %d times, result %s, raw value %d", op, calls, harness.Canon(got), want)
+			if present && (calls != 0 || harness.Canon(got) != want) {
+				fail("C03.R6", "index-consulted-for-present-key", "%s: __index called %d times, result %s, raw value %s", op, calls, harness.Canon(got), want)
 				return
 			}
 			if !present && calls != 1 {
@@ -430,7 +446,7 @@ func runTable(ctx *core.RunCtx) {
 			if anyOpen(ti) {
 				continue
 			}
-			lo, n := g.Choose(12), 1+g.Choose(16)
+			lo, n := g.Choose(30), 1+g.Choose(34)
 			desc := g.Chance(1, 2)
 			hist = append(hist, fmt.Sprintf("burst t%d[%d..%d] descending=%v", ti, lo-2, lo-2+n-1, desc))
 			for j := 0; j < n; j++ {
@@ -438,15 +454,50 @@ func runTable(ctx *core.RunCtx) {
 				if desc {
 					idx = lo + n - 1 - j
 				}
-				if idx >= 21 {
+				if idx >= 43 {
 					continue
 				}
-				counter++
 				k := pool[idx]
-				t.Set(k.v, rt.IntValue(counter))
-				m[k.norm] = counter
+				bv := newVal()
+				t.Set(k.v, bv)
+				m[k.norm] = harness.Canon(bv)
 			}
 			verify(ti, "burst")
+		case 8: // assignment through __newindex: consulted only when the raw key is absent
+			k := pool[pickKey()]
+			_, present := m[k.norm]
+			if anyOpen(ti) && !present {
+				continue
+			}
+			calls := 0
+			meta := rt.NewTable()
+			ni := rt.NewGoFunction(func(th *rt.Thread, c *rt.GoCont) (rt.Cont, error) {
+				calls++
+				return c.Next(), nil
+			}, "newindex", 3, false)
+			ni.SolemnlyDeclareCompliance(harness.AllFlags)
+			meta.Set(rt.StringValue("__newindex"), rt.FunctionValue(ni))
+			t.SetMetatable(meta)
+			nv := newVal()
+			err := rt.SetIndex(r.MainThread(), rt.TableValue(t), k.v, nv)
+			t.SetMetatable(nil)
+			op := fmt.Sprintf("t%d[%s] = %s with __newindex", ti, k.desc, harness.Canon(nv))
+			hist = append(hist, op)
+			if err != nil {
+				fail("C03.R6", "newindex-error", "%s failed: %v", op, err)
+				return
+			}
+			if present {
+				if calls != 0 {
+					fail("C03.R6", "newindex-consulted-for-present-key", "%s: the raw key is present (value %s) but __newindex was called %d times", op, m[k.norm], calls)
+					return
+				}
+				m[k.norm] = harness.Canon(nv)
+			} else if calls != 1 {
+				fail("C03.R6", "newindex-not-consulted", "%s: key absent but __newindex called %d times", op, calls)
+				return
+			}
+			verify(ti, op)
 		case 7: // next from a key that is not in the table: error, never a panic
 			k := pool[pickKey()]
 			if _, present := m[k.norm]; present || anyOpen(ti) {
